@@ -176,3 +176,61 @@ Example C10_source_example :
     [ {| a_sec := 112; a_key := [112]; a_pol := [] |} ] =
   Ok [ {| a_sec := 112; a_key := [112]; a_pol := [[[97]; [102; 40; 98; 44; 99; 41]; [100]]] |} ].
 Proof. vm_compute. reflexivity. Qed.
+
+(* ---------------------------------------------------------------------------------------------------------------
+   Of the SOURCE, the adapters themselves: the bodies of FileAdapter._load_policy_file / _save_policy_file
+   (casbin/persist/adapters/file_adapter.py; AsyncFileAdapter's two methods are checked to be the same syntax trees) and
+   of StringAdapter.load_policy / save_policy (string_adapter.py) are re-translated on every run into programs of the
+   language of AdLang.v (coq/gen/AdaptersGen.v); AdapterTie.v proves that the interpreter run on them computes load_file /
+   save_file / load_string / save_string - the functions every theorem above is about: the readline loop with decode
+   and strip, the two section loops with their `in model.keys()` guards, key + ", " + ", ".join(rule), the enumerate loop
+   that appends "\n" to every line but the last, writelines; the empty-string refusal, split("\n"), the skipped empty
+   pieces; the "\n"-terminated pieces joined and rstrip("\n")-ed.  For every file text and every model. *)
+From PyCasbin Require AdLang AdapterTie.
+From PyCasbinGen Require AdaptersGen.
+
+Theorem C10_source_file_load : forall text m, AdapterTie.run_file_load text m = load_file text m.
+Proof. exact AdapterTie.tie_file_load. Qed.
+Print Assumptions C10_source_file_load.
+
+Theorem C10_source_file_save : forall m, AdapterTie.run_file_save m = Ok (save_file m).
+Proof. exact AdapterTie.tie_file_save. Qed.
+Print Assumptions C10_source_file_save.
+
+Theorem C10_source_string_load : forall line m, AdapterTie.run_string_load line m = load_string line m.
+Proof. exact AdapterTie.tie_string_load. Qed.
+Print Assumptions C10_source_string_load.
+
+Theorem C10_source_string_save : forall m line0, AdapterTie.run_string_save m line0 = Ok (save_string m).
+Proof. exact AdapterTie.tie_string_save. Qed.
+Print Assumptions C10_source_string_save.
+
+(* hence the round trip, stated of the regenerated source: what the regenerated save writes, the regenerated load reads
+   back into the cleared model as the same policy *)
+Theorem C10_source_file_roundtrip : forall m, wf_model m ->
+  exists text, AdapterTie.run_file_save m = Ok text /\ AdapterTie.run_file_load text (clear_policy m) = Ok m.
+Proof.
+  intros m H. exists (save_file m). split; [apply AdapterTie.tie_file_save|].
+  rewrite AdapterTie.tie_file_load. exact (file_roundtrip m H).
+Qed.
+Print Assumptions C10_source_file_roundtrip.
+
+Theorem C10_source_string_roundtrip_partial : forall m line0, wf_model m -> save_lines m <> [] ->
+  exists text, AdapterTie.run_string_save m line0 = Ok text /\ AdapterTie.run_string_load text (clear_policy m) = Ok m.
+Proof.
+  intros m line0 H Hne. exists (save_string m). split; [apply AdapterTie.tie_string_save|].
+  rewrite AdapterTie.tie_string_load. exact (string_roundtrip m H Hne).
+Qed.
+Print Assumptions C10_source_string_roundtrip_partial.
+
+Example C10_source_adapters_example :
+  let m := [ {| a_sec := 112; a_key := [112]; a_pol := [[[97]; [98]]; [[99]; [102;40;120;44;121;41]]] |};
+             {| a_sec := 103; a_key := [103]; a_pol := [[[97]; [103;49]]] |};
+             {| a_sec := 109; a_key := [109]; a_pol := [] |} ] in
+  AdapterTie.run_file_save m = Ok [112;44;32;97;44;32;98;10; 112;44;32;99;44;32;102;40;120;44;121;41;10; 103;44;32;97;44;32;103;49]
+  /\ AdapterTie.run_string_save m [120] = Ok [112;44;32;97;44;32;98;10; 112;44;32;99;44;32;102;40;120;44;121;41;10; 103;44;32;97;44;32;103;49]
+  /\ AdapterTie.run_file_load [112;44;32;97;44;32;98;10; 10; 35;120;10; 103;44;32;97;44;32;103;49;32;10] (clear_policy m)
+     = Ok [ {| a_sec := 112; a_key := [112]; a_pol := [[[97]; [98]]] |}; {| a_sec := 103; a_key := [103]; a_pol := [[[97]; [103;49]]] |};
+            {| a_sec := 109; a_key := [109]; a_pol := [] |} ]
+  /\ AdapterTie.run_string_load [] m = Err ERuntime.
+Proof. vm_compute. repeat split; reflexivity. Qed.
